@@ -3,7 +3,7 @@
    Model/Engines.v (entry points, .aux files, READ) over Model/Bst.v (the interpreter) and
    Model/Citations.v (citation resolution). *)
 From Pybtex Require Import Base.Prelude Base.PyChar Base.PyStr Model.BibtexStr Model.Wrap Model.Bst Model.Citations Model.Engines
-  Proofs.EnginesSort Proofs.Engines Proofs.EnginesExec Proofs.EnginesMeta Proofs.EnginesOrder Proofs.EnginesProbe Proofs.EnginesAux.
+  Proofs.EnginesSort Proofs.Engines Proofs.EnginesExec Proofs.EnginesMeta Proofs.EnginesOrder Proofs.EnginesProbe Proofs.EnginesAux Proofs.EnginesItems.
 From Pybtex Require Model.Aux.
 From Coq Require Import Permutation Sorted.
 
@@ -203,6 +203,30 @@ Theorem reverse_visits_each_once : forall fmt_name cw fuel st f o st',
 Proof. exact reverse_command_chain. Qed.
 Print Assumptions reverse_visits_each_once.
 
+(* The engine-level fact behind "one item per resolved citation" for ANY style: let the interpreter, at an
+   ITERATE {f} command, still hold the style's code (`has_code vars`: write$ / cite$ are the built-ins, every
+   function of the table `vars` is bound as there) and let f be good for the type of every entry the engine holds
+   (`good_call`: f is a function that `emits`, or f is call.type$ and the type's function -- default.type for an
+   unknown type -- emits; a body `emits` if at its top level it executes `"\bibitem..." write$` and later
+   `cite$ write$`, or starts by calling a function that does).  If the command succeeds, the text written
+   (white space aside: wrapping only moves white space) grows by one segment per held citation, in order, each
+   containing the \bibitem literal followed by that citation's key.  `emits` / `good_call` are syntactic; the
+   harness evaluates them on the ASTs of the shipped styles (plain, unsrt, alpha, unsrt_mixed, apacite satisfy
+   them for every generated entry type; jurabib and IEEEtran build the item differently and stay oracle-only). *)
+Theorem items_per_citation : forall fmt_name cw vars fuel st f o d st',
+  vlookup f (st_vars st) = Some o -> has_code vars st -> st_db st = Some d ->
+  (forall k, In k (st_cites st) -> exists e, alookup str_eqb k (r_entries d) = Some e /\ good_call vars f (e_type e)) ->
+  run_command fmt_name cw fuel st (Cmd nm_iterate [[IId f]]) = Ok st' ->
+  exists segs, outx st' = outx st ++ concat segs /\ Forall2 item_segment (st_cites st) segs.
+Proof. exact iterate_items. Qed.
+Print Assumptions items_per_citation.
+(* no style code -- any function, built-in, while$ -- rebinds a function or built-in, creates a variable, changes
+   the current entry or the database, or takes back text already written *)
+Theorem style_code_is_stable : forall fmt_name cw fuel st p st',
+  exec fmt_name cw fuel st p = Ok st' -> keeps st st'.
+Proof. exact exec_keeps. Qed.
+Print Assumptions style_code_is_stable.
+
 (* End to end for one concrete non-sorting style,
      ENTRY {title} {} {}  FUNCTION {f} { cite$ write$ newline$ }  READ  ITERATE {f} :
    whatever the bibliography files and the citation list, the run succeeds and the output consists of
@@ -283,6 +307,19 @@ Example real_reader_example :
   = Some ([S_ "b"; S_ "a"], Some (S_ "s"), Some [S_ "db"], 0) /\
   is_ok (aux_parse_file aux_depth ex_fs (S_ "doc.aux")) = true.
 Proof. vm_compute. auto. Qed.
+
+(* plain.bst's shape: article = { output.bibitem ... }, output.bibitem = { newline$ "\bibitem{" write$ cite$ write$ "}" write$ ... } *)
+Definition ex_item_vars : list (str * obj) :=
+  (S_ "article", OFun [IId (S_ "output.bibitem"); IStr (S_ "x"); IId (S_ "write$")]) ::
+  (S_ "output.bibitem", OFun [IId (S_ "newline$"); IStr (S_ "\bibitem{"); IId (S_ "write$"); IId (S_ "cite$"); IId (S_ "write$"); IStr (S_ "}"); IId (S_ "write$")]) ::
+  initial_vars.
+Example items_example :
+  good_call ex_item_vars (S_ "call.type$") (S_ "article") /\ builtins_ok ex_item_vars.
+Proof.
+  split; [|split; reflexivity]. right. split; [reflexivity|]. left. eexists. split; [reflexivity|].
+  right. exists (S_ "output.bibitem"). eexists. eexists. split; [reflexivity|]. split; [reflexivity|].
+  left. exists [IId (S_ "newline$")], (S_ "\bibitem{"), [], [IStr (S_ "}"); IId (S_ "write$")]. split; reflexivity.
+Qed.
 
 Example uncited_example :
   never_wanted [nth 0 ex_db (mkB [] [] []); nth 2 ex_db (mkB [] [] [])] [S_ "b"; S_ "a"] (S_ "u") /\
